@@ -192,6 +192,7 @@ harnesses! {
     e2n_c03_change_zero_quantities [native 0] => battery::c03_change_zero_quantities;
     e2n_value_compare [native 0] => e2n::value_compare;
     e2n_c11_byron_attributes [native 0] => e2n::c11_byron_attributes;
+    e2n_c11_varnat [native 0] => e2n::c11_varnat;
     e2n_value_arith [native 0] => e2n::value_arith;
     e2n_c14_mint_builder_range [native 0] => e2n::c14_mint_builder_range;
     e2n_c14_decimal_strings [native 0] => e2n::c14_decimal_strings;
